@@ -1070,6 +1070,10 @@ fn real_tokens(text: &str) -> Vec<std::ops::Range<usize>> {
     crude_tokens(text).into_iter().filter(|r| !text[r.clone()].starts_with("//")).collect()
 }
 
+pub fn tokens_of(text: &str) -> Vec<std::ops::Range<usize>> {
+    crude_tokens(text)
+}
+
 /// Inserts trivia (comment lines, line breaks, blanks) into the token gaps: every gap gets a
 /// piece with a per-call probability, so that combinations of gaps occur.
 pub fn perturb_trivia(rng: &mut Rng, text: &str) -> String {
